@@ -577,8 +577,16 @@ class Retrieve:
 
         # Remove the reader from _active_readers
         self._active_readers.remove(reader)
-        for shnum in list(self.remaining_sharemap.keys()):
+        if f.check(BadShareError):
+            # Only this share is known to be bad. Other shares held by the
+            # same server are validated on their own merits when we get to
+            # them, and may be needed to reach k.
             self.remaining_sharemap.discard(shnum, reader.server)
+        else:
+            # The server itself is in trouble (connection lost, internal
+            # error): stop using all of its shares.
+            for other_shnum in list(self.remaining_sharemap.keys()):
+                self.remaining_sharemap.discard(other_shnum, reader.server)
 
         if f.check(BadShareError):
             self.notify_server_corruption(server, shnum, str(f.value))
